@@ -145,7 +145,11 @@ func calleeName(c *ssa.CallCommon) string {
 		return c.Method.Name()
 	}
 	if f := c.StaticCallee(); f != nil {
-		return f.Name()
+		n := f.Name()
+		if i := strings.Index(n, "["); i > 0 {
+			n = n[:i] // instantiated generic
+		}
+		return n
 	}
 	if b, ok := c.Value.(*ssa.Builtin); ok {
 		return b.Name()
